@@ -29,7 +29,7 @@ ContainerOf(kind) == CASE kind = "component" -> "components" [] kind = "enum" ->
 Empty == [c \in Containers |-> <<>>]
 
 Entry(scope, d) == [fqn |-> scope \o d.name, scope |-> scope, name |-> d.name, pay |-> d.pay]
-NestedKinds == {"enum", "subint"}
+NestedKinds == {"enum", "subint", "extern"}      \* Dezyne: type ::= enum | int | extern, at namespace and at interface level
 \* the local types of an interface live in the scope formed by the interface's own fqn
 RECURSIVE NestedEntries(_, _)
 NestedEntries(scope, types) ==
@@ -54,7 +54,8 @@ Step(st, tok) ==
               [st EXCEPT !.fc.interfaces = Append(@, [fqn |-> scope \o tok.name, scope |-> scope, name |-> tok.name,
                                                         pay |-> tok.pay, types |-> nested]),
                          !.fc.enums   = @ \o OfKind(nested, "enum"),          \* hoisted, encounter order
-                         !.fc.subints = @ \o OfKind(nested, "subint")]
+                         !.fc.subints = @ \o OfKind(nested, "subint"),
+                         !.fc.externs = @ \o OfKind(nested, "extern")]
          ELSE [st EXCEPT !.fc[ContainerOf(tok.kind)] = Append(@, Entry(scope, tok))]
     [] OTHER -> st                                              \* skip / broken change nothing
 
